@@ -384,9 +384,11 @@ def oracle_regs(regs, nums):
                 val = np.asarray(r.value, dtype=float)
         except Exception as e:
             return 'register %d: .value raised %r' % (k, e)
-        both_nan = np.isnan(val) & np.isnan(nv)
-        both_inf = np.isinf(val) & np.isinf(nv) & (np.sign(val) == np.sign(nv))
-        ok = both_nan | both_inf | (np.abs(val - nv) <= 1e-9 * (1 + np.abs(nv)))
+        # overflowing intermediate values (exp of large numbers) make inf-inf / 0*inf order-dependent in floating point:
+        # entries that are not finite on either side are not compared (the property is about real-valued functions)
+        nonfinite = ~np.isfinite(val) | ~np.isfinite(nv)
+        with np.errstate(invalid='ignore'):
+            ok = nonfinite | (np.abs(val - nv) <= 1e-9 * (1 + np.abs(nv)))
         if not np.all(ok):
             return 'register %d: value %s but numpy on the assigned values gives %s' % (k, val.tolist(), nv.tolist())
     return None
